@@ -73,11 +73,45 @@ Rhs0(r, i, z) == RAdd(Dot(r.eqs[i].coef0, z, 1), <<r.eqs[i].const0[1], r.eqs[i].
 InitBalances(r) == \A i \in DOMAIN r.eqs : REq(Rhs0(r, i, r.init), RZero)
 InitIsDocumentedDC(r) == ~HasDC(r) \/ REq(Vec(r.init, r.out), DC(r, Vec(r.init, 1)))
 
+(* ------------------------------------------------------------------------------------------------------- *)
+(* Documented limits of the limited blocks: which quantity each limiter of a block watches and which pair of   *)
+(* block parameters bounds it (block.py docstrings: "lower / upper are on the final output, aw_lower / aw_upper  *)
+(* on the integrator").  A "limit" record carries, for one lattice value x of the watched quantity (and a sign   *)
+(* e of its derivative), the flags the block's own limiter object returned; TLC compares them with the          *)
+(* documented bounds.  Anti-windup limiters peg only when the derivative pushes outwards.                        *)
+LimitDoc ==
+    [PIAWHardLimit |-> [aw |-> [w |-> "B_xi", lo |-> "alo", hi |-> "ahi", aw |-> TRUE], hl |-> [w |-> "B_yul", lo |-> "lo", hi |-> "hi", aw |-> FALSE]],
+     PIDAWHardLimit |-> [aw |-> [w |-> "B_xi", lo |-> "alo", hi |-> "ahi", aw |-> TRUE], hl |-> [w |-> "B_yul", lo |-> "lo", hi |-> "hi", aw |-> FALSE]],
+     PITrackAW |-> [lim |-> [w |-> "B_ys", lo |-> "lo", hi |-> "hi", aw |-> FALSE]],
+     PIDTrackAW |-> [lim |-> [w |-> "B_ys", lo |-> "lo", hi |-> "hi", aw |-> FALSE]],
+     IntegratorAntiWindup |-> [lim |-> [w |-> "B_y", lo |-> "lo", hi |-> "hi", aw |-> TRUE]],
+     LagAntiWindup |-> [lim |-> [w |-> "B_y", lo |-> "lo", hi |-> "hi", aw |-> TRUE]],
+     LagAWFreeze |-> [lim |-> [w |-> "B_y", lo |-> "lo", hi |-> "hi", aw |-> TRUE]],
+     LagAntiWindupRate |-> [lim |-> [w |-> "B_y", lo |-> "lo", hi |-> "hi", aw |-> TRUE]],
+     LeadLagLimit |-> [lim |-> [w |-> "B_ynl", lo |-> "lo", hi |-> "hi", aw |-> TRUE]],
+     GainLimiter |-> [lim |-> [w |-> "B_x", lo |-> "lo", hi |-> "hi", aw |-> FALSE]]]
+Bo(c) == IF c THEN 1 ELSE 0
+LimitExpected(r) ==
+    LET doc == LimitDoc[r.block][r.limiter]
+        x == <<r.x[1], r.x[2]>>
+        lo == P(r, doc.lo)
+        hi == P(r, doc.hi)
+        zu == Bo(RLe(hi, x) /\ (~doc.aw \/ r.e >= 0))
+        zl == Bo(RLe(x, lo) /\ (~doc.aw \/ r.e <= 0))
+    IN [zu |-> zu, zl |-> zl, zi |-> Bo(zu = 0 /\ zl = 0)]
+LimitVerdict(r) ==
+    [id |-> r.id,
+     viol |-> IF r.block \notin DOMAIN LimitDoc \/ r.limiter \notin DOMAIN LimitDoc[r.block] THEN {"LimiterIsDocumented"}
+              ELSE (IF r.watched = LimitDoc[r.block][r.limiter].w THEN {} ELSE {"LimiterWatchesDocumentedQuantity"})
+                   \cup (IF [zu |-> r.zu, zl |-> r.zl, zi |-> r.zi] = LimitExpected(r) THEN {} ELSE {"LimiterUsesDocumentedBounds"})]
+Limits == JsonDeserialize(IOEnv.LIMITS)
+
 Records == JsonDeserialize(IOEnv.RECORDS)
 Verdict(r) == [id |-> r.id,
                viol |-> (IF SolvesSystem(r) THEN {} ELSE {"CandidateSolvesRealisation"})
                         \cup (IF MatchesDocumentedTF(r) THEN {} ELSE {"TransferFunctionAsDocumented"})
                         \cup (IF InitBalances(r) THEN {} ELSE {"InitialValuesBalance"})
                         \cup (IF InitIsDocumentedDC(r) THEN {} ELSE {"InitialOutputIsSteadyState"})]
-ASSUME JsonSerialize(IOEnv.OUT, [verdicts |-> [k \in DOMAIN Records |-> Verdict(Records[k])]])
+ASSUME JsonSerialize(IOEnv.OUT, [verdicts |-> [k \in DOMAIN Records |-> Verdict(Records[k])],
+                                 limits |-> [k \in DOMAIN Limits |-> LimitVerdict(Limits[k])]])
 =============================================================================
